@@ -1,4 +1,5 @@
 import Proofs.Uri.Segments
+import Proofs.Uri.NameHost
 /-!
 # options → URI → options (C16)
 
@@ -81,6 +82,12 @@ and the `%` of pct-encoded -/
 def isUriChar (c : Nat) : Bool :=
   isUnreserved c || isSubDelim c || c == 58 || c == 47 || c == 63 || c == 35 || c == 91 ||
     c == 93 || c == 64 || c == 37
+
+/-- URI characters are ASCII -/
+theorem uriChar_ascii {c : Nat} (h : isUriChar c = true) : c < 128 := by
+  simp only [isUriChar, isUnreserved, isSubDelim, isAlpha, isUpper, isLower, isDigit,
+    Bool.or_eq_true, Bool.and_eq_true, decide_eq_true_eq, beq_iff_eq] at h
+  omega
 
 theorem uriChar_of_unreserved {c : Nat} (h : isUnreserved c = true) : isUriChar c = true := by
   simp [isUriChar, h]
@@ -226,13 +233,23 @@ theorem fromParsed_of_facts {ip : IpOracle} {s n n' : Bytes} {uriHost : Option B
   obtain ⟨p, hport⟩ := hn.port
   unfold fromParsed
   have hsc : coapSchemes.contains s = true := by simpa using hs
-  simp only [ne_eq, not_true_eq_false, ↓reduceIte, coapScheme_ne_nil hs, hsc, Bool.not_true,
+  simp only [↓reduceIte, coapScheme_ne_nil hs, hsc, Bool.not_true,
     Bool.false_eq_true, hhn, hn.userinfo, hn.literal, decodePath_encodePath hp.1 hp.2,
     decodeQuery_encodeQuery hq.1 hq.2, hport, hn.undecided]
   rcases hlit with ⟨h1, h2⟩ | ⟨h1, h, h2, h3⟩
   · rw [if_pos h1, h2]
   · rw [if_neg (by simp [h1])]
-    simp only [h2, h3]
+    -- the option value is computed from the netloc text, the facts speak of `.hostname`
+    have hhead : (n.head? == some 91) = false := by
+      simp only [Bool.or_eq_false_iff] at h1; exact h1.1
+    have hb := uriHost_bridge hhn hn.userinfo hn.literal hhead
+    rw [h2] at hb
+    cases hq' : unquoteStrict (before 58 n) with
+    | none => rw [hq'] at hb; cases hb
+    | some h' =>
+      rw [hq'] at hb
+      simp only [Option.map_some, Option.some.injEq] at hb
+      simp only [hb, h3]
 
 /-- composing from clean parts and parsing again -/
 theorem setRequestUri_render {ip : IpOracle} {s n n' : Bytes} {uriHost : Option Bytes}
@@ -249,7 +266,10 @@ theorem setRequestUri_render {ip : IpOracle} {s n n' : Bytes} {uriHost : Option 
       path := (encodePath_clean (fun x hx => (hp.2 x hx).1)).2
       query := encodeQuery_clean (fun x hx => (hq.2 x hx).1) }
   unfold setRequestUri
-  rw [urlsplit_render ip hclean, if_pos hn.brackets]
+  have hk : nfkcBad n = false :=
+    nfkcBad_ascii (fun c hc => uriChar_ascii (hn.uriChars c hc))
+  rw [urlsplit_render ip hclean, if_pos (by simp [hn.brackets, hk])]
+  simp only [contains_false_of_not_mem (render_no_hash hclean), Bool.false_eq_true, ↓reduceIte]
   exact fromParsed_of_facts hs hn hp hq
 
 end Aiocoap.Uri
